@@ -699,16 +699,27 @@ def scenario_text(sid, tag, cfg, argv, prog="prog"):
         return r
 
     members = [None] if cfg.groups is None else list(range(len(cfg.groups)))
-    later = []
+    if cfg.groups is not None and getattr(cfg, "interleave", False):
+        # all member handlers are created first, then the arguments are added in the order of cfg.args (members
+        # interleaved), then the handler constraints
+        for m in members:
+            L.append("G %s %d" % (hx(cfg.groups[m][0]), cfg.groups[m][1]))
+        cur = members[-1]
+        for a in cfg.args:
+            if a.member != cur:
+                cur = a.member
+                L.append("G %s %d" % (hx(cfg.groups[cur][0]), cfg.groups[cur][1]))
+            L.append(arg_line(a).rstrip())
+        for kind, mem, cm in cfg.constraints:
+            L.append("G %s %d" % (hx(cfg.groups[cm][0]), cfg.groups[cm][1]))
+            L.append("C %s %s" % (kind, hx(";".join(x.refspec() for x in mem))))
+        members = []
     for m in members:
         if m is not None:
             L.append("G %s %d" % (hx(cfg.groups[m][0]), cfg.groups[m][1]))
         for a in cfg.args:
             if m is None or a.member == m:
                 L.append(arg_line(a).rstrip())
-        # argument constraints need all partner arguments defined -> expressed as options on a second pass is
-        # not possible in the API (constraints are attached to the argument object), but excludes()/requiresArg()
-        # only store the spec string, so they can be given with the argument itself:
         for kind, mem, cm in cfg.constraints:
             if (m is None) or cm == m:
                 L.append("C %s %s" % (kind, hx(";".join(x.refspec() for x in mem))))
